@@ -143,6 +143,19 @@ Theorem C12_back_to_back_not_mixed : forall ip_mtu bufsize id0 nsocks ops,
 Proof. exact c12_back_to_back. Qed.
 Print Assumptions C12_back_to_back_not_mixed.
 
+(* Wire order.  Scanning EVERYTHING the interface emits (whole packets and fragments): between
+   the first and the last fragment of a train no SOCKET packet appears at all -- the only whole
+   packets that may interleave are ingress-triggered replies (is_reply) -- and the scan ends
+   inside a train exactly when the fragmenter still holds unsent fragments.  A small datagram
+   queued behind an oversized one therefore cannot overtake its remaining fragments. *)
+Theorem C12_no_socket_packet_inside_train : forall ip_mtu bufsize id0 nsocks ops,
+  f4_hdr + 8 <= ip_mtu ->
+  let '(st, out) := eg_run ip_mtu (eg_init bufsize id0 nsocks) ops in
+  wire_ok (ops_replies ops) false out /\
+  train_state false out = negb (fr_finished (eg_fr st)).
+Proof. exact c12_no_socket_packet_inside_train. Qed.
+Print Assumptions C12_no_socket_packet_inside_train.
+
 (* A packet that dispatch_ip drops (fragmentation buffer too small, fragmenter busy) or emits
    whole changes NOTHING in the fragmenter -- buffer, counters, ident and the stored link-layer
    address; only starting a train stores the address resolved for that datagram, and a train is
@@ -232,6 +245,16 @@ Theorem C12_example_two_neighbours :
   [(1, 7, 0, true, 536, 17); (1, 7, 536, true, 536, 17); (1, 7, 1072, false, 336, 17)].
 Proof. exact c12_two_neighbours_example. Qed.
 Print Assumptions C12_example_two_neighbours.
+
+(* one socket, 1400 / 1200 / 10 bytes of UDP payload queued back to back at IP MTU 576 (the C09/C12
+   overtaking defect on the repaired code): the small datagram leaves after both trains *)
+Theorem C12_example_small_datagram_does_not_overtake :
+  map (fun f => (p_is_fragment (snd f), p_offset (snd f), zlen (p_payload (snd f)), hd 0 (p_payload (snd f))))
+      (snd (eg_run 576 (eg_init cfg_FRAGMENTATION_BUFFER_SIZE 7 1) c12_overtake_ops)) =
+  [(true, 0, 552, 17); (true, 552, 552, 17); (true, 1104, 304, 17);
+   (true, 0, 552, 34); (true, 552, 552, 34); (true, 1104, 104, 34); (false, 0, 18, 51)].
+Proof. exact c12_overtake_example. Qed.
+Print Assumptions C12_example_small_datagram_does_not_overtake.
 
 (* a permuted arrival with a duplicate (last, first, first, middle) of the sender's fragments *)
 Theorem C12_example_permuted_duplicate :
